@@ -29,6 +29,14 @@ def reset_menu():
     Menu.field_info = copy.deepcopy(pristine_table())
 
 
+def listing_ok(listed, names):
+    """every field of the header is shown exactly once: under its own name or under the name of its class (a class is
+    shown once for all its fields), nothing twice, nothing that is neither a field nor a class of a field"""
+    classes = {classify(f)[0] for f in names}
+    return (all(f in listed or classify(f)[0] in listed for f in names) and len(listed) == len(set(listed))
+            and all(l in names or l in classes for l in listed))
+
+
 def classify(field):
     for key, (rx, _, units) in pristine_table().items():
         if re.search(rx, field):
@@ -81,7 +89,7 @@ def check_minmax(rep, case, text, P, finest):
         if (got[0], got[1]) != (fmt(mn).strip(), fmt(mx).strip()):
             bad.append(f"field {nm!r}: table shows {got[0]} / {got[1]}, the header tables give {fmt(mn).strip()} / {fmt(mx).strip()}")
         elif got[2] != classify(nm)[1]:
-            bad.append(f"field {nm!r}: units {got[2]} != {classify(nm)[1]}")
+            rep.count("units-differ-from-database")      # the property does not speak about units
     extra = [n for n in rows if n not in names and n.strip() != ""]
     if extra:
         bad.append(f"table lists {extra} which are not fields")
@@ -123,7 +131,10 @@ def run_spec(ctx, rep, spec, model, only=None):
     import amr_kitchen.menu.cli as menucli
     from amr_kitchen import PlotfileCooker
     root = ctx.newdir("c18_"); os.makedirs(root)
-    path = os.path.join(root, "plt00010")
+    # plotfile directory names as they occur: plain, AMReX backup names with dots, a dot in a parent directory
+    dname = spec.get("dirname", "plt00010")
+    path = os.path.join(root, dname)
+    os.makedirs(os.path.dirname(path), exist_ok=True)
     truth = plotgen.materialize(spec, path)
     P = oracle.parse(path)
     names = list(dedup_names(spec["fields"]))
@@ -153,7 +164,7 @@ def run_spec(ctx, rep, spec, model, only=None):
                 cells = [l for l in body.split("\n") if l and not l.startswith("+") and "Fields found" not in l]
                 # names are padded to a common width and joined with spaces (generated names hold no spaces)
                 listed = [w for l in cells for w in l.split()]
-                if sorted(listed) != sorted(want):
+                if sorted(listed) != sorted(want) and not listing_ok(listed, names):
                     missing = [w for w in want if w not in listed]
                     rep.fail(f"default listing shows {listed}; every field should be classified exactly once: {want} (missing {missing})", case)
                 sp = sorted(re.sub(r"\)$", "", re.sub(r"^Y\(", "", f)) for f in names if re.search(r"^Y\(.+\)$", f))
@@ -175,7 +186,7 @@ def run_spec(ctx, rep, spec, model, only=None):
                 out = run_main(menucli, ["menu", path, "-d"])
                 want = sorted({classify(f)[0] for f in names}, key=str.lower)
                 got = [l.split(" : ")[0].rstrip() for l in out.split("\n") if " : " in l]
-                if sorted(got) != sorted(want):
+                if sorted(got) != sorted(want) and not listing_ok(got, names):
                     rep.fail(f"description listing shows {got}, expected {want}", case)
             elif tool == "menu-has":
                 probe = [classify(names[0])[0], "no_such_class"]
@@ -221,11 +232,14 @@ FIELDSETS = [
     ["density"], ["a", "xa"], ["density", "temp", "Y(H2)"], ["x_velocity", "y_velocity", "temp", "Y(O2)", "Y(N2)"],
     ["temp", "density", "rhoh"], ["foo", "foobar", "bar", "Y(OH)"], ["avg_pressure", "gradpx", "I_R(H2)", "X(H2)", "volFrac", "mag_vort", "D_H2"],
     ["density", "temp"], ["zeta", "eta", "theta", "iota", "kappa"], ["Y(H2)", "Y(O2)", "Y(H2O)", "Y(N2)"],
+    # fields literally named like keys of menu's database, ahead of the fields the keys classify
+    ["X", "Y", "Z", "Y(H2)", "Y(O2)", "X(H2)"], ["Y", "density", "Y(OH)", "Y(N2)", "temp"],
+    ["velocity", "x_velocity", "I_R", "I_R(H2)", "D", "D_H2", "gradp", "gradpx"],
 ]
 
 
 def run(ctx, rep, model=True):
-    n = 10 if ctx.quick else 60
+    n = 15 if ctx.quick else 75
     for i in range(n):
         spec = plotgen.random_spec(ctx.rng, ndims=[3, 2, 3][i % 3], nlev=[1, 2, 3][i % 3], nf=1, B=2,
                                    data=["smallint", "bits", "tags"][i % 3], layout="scatter")
@@ -233,6 +247,7 @@ def run(ctx, rep, model=True):
         if i >= len(FIELDSETS):
             ctx.rng.shuffle(spec["fields"])
         spec["time"] = [0.0, -2.5, 3e-7, float("inf"), 1234.5678, float("nan")][i % 6]
+        spec["dirname"] = ["plt00010", "plt00010.old.0000000", "run.2/plt00020", "plt.a", "plt00030.temp"][i % 5]
         run_spec(ctx, rep, spec, model)
         if len(rep.violations) >= 12:
             return
